@@ -920,6 +920,10 @@ func newCommonNode(ctx context.Context, cfg CommonConfig) *commonNode {
 // TransactionResultsFromCometBFT converts CometBFT transactions and responses
 // into transaction results.
 func TransactionResultsFromCometBFT(height int64, txs [][]byte, responses []*cmtabcitypes.ResponseDeliverTx) ([]*results.Result, error) {
+	if len(responses) != len(txs) {
+		// The responses may come from an untrusted provider (stateless client).
+		return nil, fmt.Errorf("mismatched number of transactions and results (transactions: %d results: %d)", len(txs), len(responses))
+	}
 	txResults := make([]*results.Result, 0, len(txs))
 
 	for idx, rs := range responses {
